@@ -150,6 +150,9 @@ def check_exact(doc, argv, stats, case):
         stats.classes["empty log"] += 1
     rr = run_replay(doc, argv, log_text)
     stats.evaluations += 1
+    if rr.kind == "timeout":
+        stats.inconclusive += 1               # wall-clock limit of the harness: machine load, not the tool
+        return [], log, out1
     if rr.kind != "ok" or rr.value["exc"] is not None or FROM_LOG not in rr.value["files"]:
         info = rr.info if rr.kind != "ok" else rr.value["exc"]
         return [runner.Failure("exact-replay-rejected", str(info[0] if isinstance(info, (list, tuple)) else info)[:40],
